@@ -150,6 +150,7 @@ class Collector:
         self.exhaustive: Dict[str, bool] = {}
         self.budget_hit: List[str] = []
         self.batch_nontrivial = 0  # distinct-by-construction members of batch cases
+        self.target_wall = Counter()  # seconds spent per target (summed over shards)
 
     def add(self, target: str, case, ev: Eval, keep_samples: int = 4):
         self.evaluations += ev.weight
@@ -203,6 +204,7 @@ class Collector:
             "exhaustive": self.exhaustive,
             "budget_hit": self.budget_hit,
             "batch_nontrivial": self.batch_nontrivial,
+            "target_wall": dict(self.target_wall),
         }
 
     def merge_json(self, d: dict):
@@ -218,6 +220,7 @@ class Collector:
             self.exhaustive[k] = self.exhaustive.get(k, True) and v
         self.budget_hit += d["budget_hit"]
         self.batch_nontrivial += d.get("batch_nontrivial", 0)
+        self.target_wall.update(d.get("target_wall", {}))
         for sig, rec in d["failures"].items():
             cur = self.failures.get(sig)
             if cur is None:
@@ -281,6 +284,14 @@ def _hyp_settings(n: int, phases=None):
 
 
 def run_target(ctx: Ctx, t: Target):
+    t_start = time.time()
+    try:
+        _run_target(ctx, t)
+    finally:
+        ctx.col.target_wall[t.name] += round(time.time() - t_start, 2)
+
+
+def _run_target(ctx: Ctx, t: Target):
     n = t.thorough if ctx.thorough else t.quick
     tlimit = t.time_thorough if ctx.thorough else t.time_quick
     t0 = time.time()
@@ -484,6 +495,7 @@ def run_check(pid: str, tier: str, seed: int, nshards: Optional[int] = None) -> 
             "rule": rule,
             "samples": col.samples[:12] or [{"note": "no non-trivial sample captured"}],
             "per_target": dict(col.per_target),
+            "target_wall_s_summed_over_shards": {k: round(v, 1) for k, v in col.target_wall.items()},
             "class_distribution": dict(col.labels.most_common(200)),
             "discarded": dict(col.discards),
             "exhaustive_subdomains": {k: v for k, v in col.exhaustive.items()},
